@@ -223,6 +223,10 @@ impl GenerationPass for AvailableValuePass {
                     &node.memory_values_in(),
                 );
                 rule_perform_math_ops(&node.node(), &mut out_reg_n, &node.reg_values_in());
+                // The zero register cannot be written: what the rules derived
+                // for an instruction that names it as its destination is not
+                // a fact about x0.
+                out_reg_n.remove(&Register::X0);
                 rule_push_value_to_csr_memory(&node.node(), &mut out_memory_n, &out_reg_n);
                 rule_known_values_to_stack(&mut out_memory_n, &node.reg_values_in());
                 // A memory value that is still described through a register
